@@ -40,7 +40,7 @@ var polluters = map[string]string{
 	"patchjson":     `JSON.stringify = function() { return "x"; }; Object.keys = function() { return ["evil"]; }; return _.bindings;`,
 	"replaceenv":    `_.out = 5; _.evil = 1; var b = _.bindings; _.bindings = {evil: 1}; return b;`,
 	"mutatenested":  `_.bindings.n.k = 99; _.bindings.arr.push(7); _.bindings.n.deep.z = [1]; delete _.bindings.gone; return {ok: 1};`,
-	"mutateprops":   `_.props.top = 1; if (_.props.n) { _.props.n.k = 2; _.props.n.added = {x: 1}; } if (_.props.list) { _.props.list.push(9); } return _.bindings;`,
+	"mutateprops":   `_.props.top = 1; if (_.props.n) { _.props.n.k = 2; _.props.n.added = {x: 1}; } if (_.props.list) { _.props.list.push(9); } if (_.props.labels) { _.props.labels.env = "x"; } if (_.props.peers) { _.props.peers[0] = "x"; } if (_.props.rows) { _.props.rows[0].r = "x"; } return _.bindings;`,
 	"throwafter":    `polluted = 1; Object.prototype.polluted = 1; _.bindings.n.k = 98; throw "boom";`,
 	"emitandmutate": `var m = {a: {b: 1}}; _.out(m); m.a.b = 2; _.bindings.n.k = 97; return _.bindings;`,
 }
@@ -73,7 +73,18 @@ func freshProps() core.StepProps {
 	case 2:
 		return nil
 	}
-	return core.StepProps{"mid": "m1", "n": map[string]interface{}{"k": float64(1)}, "list": []interface{}{float64(1)}}
+	return core.StepProps{"mid": "m1", "n": map[string]interface{}{"k": float64(1)}, "list": []interface{}{float64(1)},
+		// containers of other Go types
+		"labels": map[string]string{"env": "prod"}, "peers": []string{"p1", "p2"}, "rows": []map[string]interface{}{{"r": "one"}}}
+}
+
+// plainJSON: the value as generic JSON data (typed maps and slices included)
+func plainJSON(x interface{}) interface{} {
+	js, err := json.Marshal(x)
+	check(err)
+	var y interface{}
+	check(json.Unmarshal(js, &y))
+	return y
 }
 
 type execOut struct {
@@ -123,7 +134,7 @@ func isoCase(id int) O {
 	ctx := context.Background()
 	propsMode = []int{0, 0, 1, 2}[rng.Intn(4)]
 	bs, props := freshBs(), freshProps()
-	bsBefore, propsBefore := enc.Bs(bs), enc.V(map[string]interface{}(props))
+	bsBefore, propsBefore := enc.Bs(bs), enc.V(plainJSON(map[string]interface{}(props)))
 	compiled := map[string]interface{}{}
 	get := func(name, src string) interface{} {
 		if c, have := compiled[name]; have {
@@ -147,7 +158,7 @@ func isoCase(id int) O {
 		seq = append(seq, O{"polluter": name, "err": r.Err})
 	}
 	// the caller's data after the polluting executions
-	bsAfter, propsAfter := enc.Bs(bs), enc.V(map[string]interface{}(props))
+	bsAfter, propsAfter := enc.Bs(bs), enc.V(plainJSON(map[string]interface{}(props)))
 	after := runExec(in, ctx, bs, props, probeSrc, probeC)
 	// concurrent: polluters and probes on the same compiled programs at once
 	conc := T{}
